@@ -74,3 +74,6 @@ def register(R):
             modifies=modsS,
             tags="C04 C12",
         )
+    # the generic retry loop (contract in c_tls_recv.py) carries the lock discipline of the ciphertext flush: part of the send cone too
+    R.group("C04", f"{TLS}:AsyncTLSStreamTransport._retry_ssl_method")
+    R.group("C12", f"{TLS}:AsyncTLSStreamTransport._retry_ssl_method")
